@@ -68,3 +68,30 @@ def run(ctx):
         path = F.reaches(e, commits)
         ctx.instance("C07.2", "%s reaches commit=%s" % (e, bool(path)))
         ctx.oblige(not path, "C07.2", e + "=>commit", "a non-commit transaction entry point reaches WriteTxn::commit: %s" % path, F.bodies[e].file)
+
+    # ---- clause 4: nothing that can still refuse the transaction runs after its CommitTx record is durable -------------
+    # Index maintenance (B-tree insert / delete, catalog flush) can fail (`index page: no space`, I/O).  If the CommitTx record
+    # is already fsynced when it does, commit() returns Err — the caller treats the transaction as not committed, nothing is
+    # published in the session — but recovery finds a complete BeginTx..CommitTx group and replays it: the "failed" transaction
+    # reappears after the next open.
+    from .. import paths
+    ctx.rule("C07.4", "in WriteTxn::commit no index maintenance (BTree insert / delete, IndexCatalog flush / update_root) is dominated by the Ok arm of the WAL fsync of the CommitTx record")
+    cb4 = ctx.body(M.COMMIT)
+    oks4 = [o for o in (paths.ok_arm(cb4, c) for c in cb4.calls() if c.name == M.WAL_FSYNC) if o is not None]
+    ctx.floor("C07.4", "fsync sites in commit", len(oks4), 1)
+    INDEX_PRIMS = ("nervusdb_storage::index::btree::BTree::insert", "nervusdb_storage::index::btree::BTree::delete",
+                   "nervusdb_storage::index::catalog::IndexCatalog::flush", "nervusdb_storage::index::catalog::IndexCatalog::update_root")
+    n4 = 0
+    k4 = {}
+    for c in cb4.calls():
+        if c.name not in INDEX_PRIMS:
+            continue
+        n4 += 1
+        short = "::".join(c.name.split("::")[-2:])
+        k4[short] = k4.get(short, -1) + 1
+        after = any(cb4.dominates(o, c.bb) for o in oks4)
+        ctx.instance("C07.4", "commit: %s#%d after the durable CommitTx=%s" % (short, k4[short], after))
+        ctx.oblige(not after, "C07.4", "commit:%s#%d:after-commit-record" % (short, k4[short]),
+                   "index maintenance runs after the CommitTx record is durable: when it fails, commit() reports an error for a transaction that recovery "
+                   "will replay — the refused transaction reappears after reopen", c.loc())
+    ctx.floor("C07.4", "index maintenance sites in commit", n4, 5)
